@@ -189,7 +189,13 @@ Record state2 := {
   s_batch : batch2;
   s_view : view2;
   s_rv : N;
-  s_obs : list (batch2 * list string) }.
+  (* observations, one per ISwap: the batch handed over, the converted ingresses, and those
+     of them that the tracker links to an IngressClass name (readIngressClass links every
+     converted ingress that has an ingressClassName, whatever the kind of ingress) *)
+  s_obs : list (batch2 * list string * list string) }.
+
+Definition linked_names (v : view2) : list string :=
+  flat_map (fun p => match snd p with Some _ => [fst p] | None => [] end) v.
 
 Definition state2_0 (ks : list iclass) : state2 :=
   {| s_objs := []; s_ks := ks; s_batch := batch2_0; s_view := []; s_rv := 1; s_obs := [] |}.
@@ -224,7 +230,7 @@ Definition step2 (c : cfg) (s : state2) (o : op2) : state2 :=
   | ISwap extra =>
       let v := apply_batch2 c cls (s_objs s) (s_batch s) (s_view s) extra in
       {| s_objs := s_objs s; s_ks := s_ks s; s_batch := batch2_0; s_view := v;
-         s_rv := s_rv s; s_obs := s_obs s ++ [(s_batch s, map fst v)] |}
+         s_rv := s_rv s; s_obs := s_obs s ++ [(s_batch s, map fst v, linked_names v)] |}
   end.
 
 (* the history starts from the IngressClass objects [ks0] that exist when the
